@@ -359,14 +359,14 @@ pub fn install_dialer(world: &Shared) {
             w.conns.push(nw.conns.remove(0));
         }
         if ci >= w.conns.len() {
-            life_push("n", 0);
+            life_push("n", ci + 1);
             return Some(Err(io::Error::new(io::ErrorKind::ConnectionRefused, "no scripted peer left")));
         }
         w.dialed += 1;
         DIALS.with(|d| d.set(w.dialed));
         w.conns[ci].dial = Some((req.scheme.clone(), req.host.clone(), req.port));
         if let Some(kind) = w.conns[ci].script.refuse {
-            life_push("n", 0);
+            life_push("n", ci + 1);
             return Some(Err(kind.into()));
         }
         drop(w);
